@@ -93,6 +93,18 @@ CHECKS = {
          "Every transition runs the real implementation, so traces_validated_against_impl == transitions. Base values "
          "are tied to exact oracles by C01/C02/C13/C14. Depth bound stated in evidence.",
          "DESIGN.md section 3/C16"),
+ "C04": ("model_checking", "E2",
+         "explicit-state BFS over index/derivation histories on the real objects; exact C01 oracle as reference model",
+         "Breadth-first search over histories of build_sindex(page_size in {1,2,3,512}, p in {1,10}), iloc slices, "
+         "boolean filters, take, copy, pickle and container changes (array -> GeoSeries -> GeoDataFrame with "
+         "non-unique labels and extra columns) from 6 base row lists per kind (missing, empty, duplicates, single, "
+         "zero rows). States are rebuilt by replaying their history on a fresh object and deduplicated on (rows, "
+         "container, index state, pyarrow offset). In every new state every query of the product (lattice boxes x "
+         "present/omitted/reversed slice ends) must return exactly the rows the exact oracle selects, in order, with "
+         "labels and other columns intact - with and without an index, hence identically.",
+         "traces_validated_against_impl == transitions (all run on the real code). Depth 2 quick / 3 thorough; "
+         "degenerate effective boxes skipped for line/polygon kinds; evidence counts evaluations through the index path.",
+         "DESIGN.md section 3/C04"),
 }
 
 NOT_YET = {}
